@@ -1,5 +1,6 @@
 import Sif.Proofs.C18
 import Sif.Proofs.C18Bucket
+import Sif.Proofs.C18Fair
 import Sif.Spec.C18
 /-
   C18 — Reward and distribution payouts are pro rata to provider units.  Property theorems only.
@@ -51,6 +52,19 @@ theorem bucket_amount_clamp_bounds (B : Nat) (raw : List (String × Nat)) (i : N
     ((clampAmounts B raw)[i]'h').2 ≤ (raw[i]'h).2 ∧
     (raw[i]'h).2 ≤ ((clampAmounts B raw)[i]'h').2 + (amtTotal raw - B) :=
   ⟨(clampAmounts_le B raw).2 i h h', clampAmounts_ge B raw i h h'⟩
+
+/-- **Epoch bucket payout, any number of providers (with fix F26).**  For the eligible providers `lps` of
+    an asset (holding units) and a bucket B, the amounts `CalculateReward{Share,Amount}ForLiquidityProviders`
+    compute add up to at most B, name the same providers in the same order, and the i-th provider's amount
+    is within one base unit plus (n+1)·B·10⁻¹⁸ of its share u_i/U of the bucket — all n, all magnitudes. -/
+theorem bucket_amounts_fair {lps : List (String × LP)} {B : Nat} {amts : List (String × Nat)}
+    (hU : 0 < unitsSum lps) (h : rewardAmounts lps B = .ok amts) :
+    amts.length = lps.length ∧ amtTotal amts ≤ B ∧
+    ∀ i (h1 : i < lps.length) (h2 : i < amts.length),
+      (amts[i]'h2).1 = (lps[i]'h1).1 ∧
+      ((amts[i]'h2).2 : ℚ) ≤ ((lps[i]'h1).2.units : ℚ) / (unitsSum lps : ℚ) * B + (B : ℚ) / P ∧
+      ((lps[i]'h1).2.units : ℚ) / (unitsSum lps : ℚ) * B - 1 - ((lps.length : ℚ) + 1) * ((B : ℚ) / P) ≤ ((amts[i]'h2).2 : ℚ) :=
+  rewardAmounts_fair hU h
 
 /- non-vacuity: six equal providers, bucket 6·10¹⁸ — every rounded share is 0.166666666666666667, the raw
    amounts overshoot the bucket by 12 base units, the last provider gets what is left instead of nothing -/
